@@ -26,6 +26,19 @@ B   end to end, public API only: `unwrap_phase_2d_torch(method="reliability-sort
     the 2*pi*Z relation is demanded ("always" in the property).  Masked-out pixels of the output hold
     input - global mean; they are never compared.
     `unwrap_bf_overlap_phase_torch` (the masked embedding used by direct ptychography) gets the same oracle.
+L   long steep fields (magnitude thresholds).  A small-scope enumeration cannot see a threshold on a magnitude unless the
+    alphabet straddles it: 1xN, 3xN, Nx2 grids with N in {280, 300, 560, 600}, ramps at 0.9*pi per sample along the long
+    axis (plain, and negative-diagonal), a periodic triangle wave for wrap_around=True, full mask / hole / one-pixel bridge /
+    gap in the middle of the long axis, both dtypes: the true wrap count inside one region runs to 125 | 134 | 251 | 269,
+    i.e. just below and just above what fits a signed / unsigned 8-bit integer.  Same oracle, tolerance scaled with the
+    field range where the library's float32 bookkeeping forces it.
+A3  long chains on the real union-find, constructed with the extra arguments the unwrapper is observed to pass (e.g. a
+    dtype): 1x300 and 1x600 paths, ramp +-0.9*pi per sample, edges merged left-to-right, right-to-left, middle-out and
+    interleaved, offset invariant checked every few unions; thorough: a 1x73,000 chain (wrap count 32,850 > int16).
+H   call histories: every ordered pair (thorough: triple) of calls from a 9-call alphabet on one shape and a control shape
+    (bounded ramp with winding, periodic field on a corner-centred disc that is connected only through the seam, bounded
+    masked, periodic full, float32 with holes, Poisson), imaging_utils re-imported before each history; the LAST call is
+    judged by the usual oracle (a result must not depend on earlier calls) and every input must stay bitwise unchanged.
 P   the FFT Poisson method is outside the exactness claim: only "does not raise" (wrap_around=True; it is
     NotImplemented by design for wrap_around=False, which is recorded, not judged).
 """
@@ -45,8 +58,9 @@ from mc.harness import Broken, Tally, digest
 LEVEL = "model_checking"
 TECHNIQUE = (
     "explicit-state BFS over every merge order of the real union-find (full-attribute state dedup, true wrap counts as "
-    "reference model), every edge order forced through the public unwrapper via a patched argsort, and a complete "
-    "mask/shape/field lattice through the public function with a connected-component oracle"
+    "reference model), every edge order forced through the public unwrapper via a patched argsort, a complete "
+    "mask/shape/field lattice through the public function with a connected-component oracle, long steep fields straddling "
+    "the 8-bit wrap-count boundaries, and every ordered pair/triple of calls from a call alphabet on a freshly re-imported module"
 )
 CLAIM = (
     "For every listed small pixel graph (quick: 2x2, 2x3, 3x2, 2x4 bounded and 1x4 periodic with every mask; thorough adds 3x3 and "
@@ -57,14 +71,19 @@ CLAIM = (
     "Every one of the E! edge orders of small grids was also forced through the public unwrap_phase_2d_torch. End to end, for "
     "every point of the printed lattice (shapes {3..8}^2, structured masks, every non-empty mask of a 3x4 grid, bounded and "
     "periodic, wrapped and already-unwrapped input, two dtypes) the result equals the generating field up to one constant per "
-    "connected mask component and differs from the input by multiples of 2*pi plus that constant. Model checking is the right "
+    "connected mask component and differs from the input by multiples of 2*pi plus that constant. The same holds on long steep "
+    "grids (1xN, 3xN, Nx2, N up to 600) whose wrap count inside one region straddles 127/128 and 255/256, on long chains of the real "
+    "union-find merged in four structured orders, and for the last call of every ordered pair (thorough: triple) of calls from a "
+    "9-call alphabet after a fresh re-import of the module, with all inputs bitwise unchanged. Model checking is the right "
     "level because the guarantee rests on offset bookkeeping that must hold for every merge order, which no single input reaches."
 )
 NOTE = (
     "Trusted: the oracle in checks/C17.py (true wrap counts, scipy.ndimage.label plus a periodic join), the field alphabet (all "
     "fields rescaled to a maximum neighbour step of 0.9*pi, so the verdict is for Itoh margin 0.1*pi), the bound on graph size, and "
     "the no-op-edge reduction (validated exhaustively on the 2x3 graph at every run). Universality over continuous fields is not "
-    "claimed: the union-find only sees the integer edge labels, which the BFS covers for the label patterns of the alphabet. The "
+    "claimed: the union-find only sees the integer edge labels, which the BFS covers for the label patterns of the alphabet. "
+    "Magnitude thresholds are visible only where the alphabet straddles them: wrap counts up to 269 end to end, 32,850 on the "
+    "union-find alone (thorough); hidden state between calls is searched for in imaging_utils only, for histories of 2-3 calls. The "
     "Poisson method is only run for 'does not raise'. UnionFindPhase is an internal name: if it disappears the check falls back "
     "to the forced-order and end-to-end parts and says so in the evidence."
 )
@@ -74,7 +93,10 @@ RULE = (
     "configuration has a non-zero edge label. A2: all permutations of the edge list, forced through the public function. "
     "B: full Cartesian lattice shape x mask x wrap_around x field x input kind x dtype and every non-empty mask of the small "
     "grids; a point is non-trivial when the input differs from the truth by a non-constant multiple of 2*pi on some "
-    "component (wrapped input) or the truth spans more than 2*pi on a component (already-unwrapped input)."
+    "component (wrapped input) or the truth spans more than 2*pi on a component (already-unwrapped input). L: full product of "
+    "long shapes x masks x fields x dtype; non-trivial when the true wrap count spans more than 127 inside one region. A3: every "
+    "(chain length, merge order, slope sign). H: every ordered pair (thorough: triple) of the call alphabet; non-trivial when an "
+    "earlier call differs from the judged last call."
 )
 
 TWO_PI = 2.0 * math.pi
@@ -452,7 +474,7 @@ def judge(out, truth, given, lab, ncomp, smooth, kind, TOL=TOL):
         coords = [tuple(int(v) for v in rc) for rc in np.argwhere(sel)]
         if not np.isfinite(dk).all() or frac > TOL:
             off = [(coords[i], round(float(k[i]), 4)) for i in np.flatnonzero(~(np.abs(k - np.rint(k)) * TWO_PI <= TOL))[:6]]
-            bad.append(("result_minus_input_in_2piZ_plus_constant", f"component {c} ({len(coords)} px): result - input is off the 2*pi lattice by {frac:.3g} rad (tol {TOL}); (result-input)/(2*pi) relative to pixel {coords[0]} at (row, col): {off}"))
+            bad.append(("result_minus_input_in_2piZ_plus_constant", f"component {c} ({len(coords)} px): result - input is off the 2*pi lattice by {frac:.3g} rad (tol {TOL:.3g}); (result-input)/(2*pi) relative to pixel {coords[0]} at (row, col): {off}"))
         if smooth:
             dt = (out - truth)[sel]
             p = float(np.ptp(dt)) if np.isfinite(dt).all() else float("inf")
@@ -461,7 +483,7 @@ def judge(out, truth, given, lab, ncomp, smooth, kind, TOL=TOL):
                 rel = "unwrapped_input_unchanged_up_to_constant" if kind == "unwrapped" else "result_minus_truth_constant_per_component"
                 e = (dt - dt[0]) / TWO_PI
                 off = [(coords[i], round(float(e[i]), 3)) for i in np.flatnonzero(~(np.abs(dt - dt[0]) <= TOL))[:6]]
-                bad.append((rel, f"component {c} ({len(coords)} px): result - truth is not constant, it spans {p:.4g} rad (tol {TOL}); (result-truth)/(2*pi) relative to pixel {coords[0]} at (row, col): {off}{' ...' if len(off) == 6 else ''}"))
+                bad.append((rel, f"component {c} ({len(coords)} px): result - truth is not constant, it spans {p:.4g} rad (tol {TOL:.3g}); (result-truth)/(2*pi) relative to pixel {coords[0]} at (row, col): {off}{' ...' if len(off) == 6 else ''}"))
             need = (truth - given)[sel]
             if kind == "wrapped" and np.ptp(need) > 1.0:
                 nontrivial = True
@@ -909,9 +931,10 @@ def poisson_point(pt, seed=0):
 LONG_N = (280, 300, 560, 600)
 EPS32 = 1.1920929e-07
 # Tolerance for the long family: the library adds float32(2*pi*k) to the input, so the result carries a rounding error of
-# up to half a float32 ulp of the field range.  tol = max(TOL, 32 * eps32 * range): 6.5e-3 rad at range 1,700 rad; worst
-# deviation observed there (seeds 0,1,2, both dtypes): 2.4e-4 rad (27x below).  Effect of the int8 wrap: 256*2*pi = 1,608 rad;
-# of one wrong wrap: 6.28 rad.  Capped at 0.3 rad (1/20 of 2*pi).
+# up to half a float32 ulp of the field range.  tol = max(TOL, 32 * eps32 * range): 6.5e-3 rad at range 1,700 rad.  Worst
+# deviation/tolerance over all 168 points of the thorough long lattice (the fields are not seeded): 0.042, i.e. the tolerance
+# is 24x the worst deviation (2.5e-4 rad, 560x2 bridge, float32).  Effect of the int8 wrap: 256*2*pi = 1,608 rad; of one wrong
+# wrap: 6.28 rad (1/20 = 0.31 rad, which also caps the tolerance: 0.3 rad).
 
 
 def long_tol(rng):
@@ -1079,6 +1102,7 @@ def a3_worker(item, seed=0):
     if sorted(order) != list(range(N - 1)):
         raise Broken(f"a3_order({oname}, {N}) is not a permutation of the edges")
     uf = S.make(N)
+    where += f" [union-find built like the unwrapper builds it: extra arguments {S.ctor_extra[0] + tuple(sorted(S.ctor_extra[1].items()))}, stored as " + ", ".join(f"{k}:{str(v.dtype).replace('torch.', '')}" for k, v in sorted(vars(uf).items()) if torch.is_tensor(v)) + "]"
     step = max(16, N // 32) if N <= 2000 else N  # long chains: at the end only
     done = 0
     failed = False
